@@ -206,10 +206,29 @@ def hypothesis_family(kind, seed, n_trees, per_tree):
     return ports_model.explicit_family('hypothesis', what, kind, items)
 
 
+def deep_family():
+    """C11: namespaces nested three deep whose defaults must be filled into a COPY of the caller's nested dictionaries
+    (raw_inputs and the caller's dict stay exactly as given at every depth)."""
+    def leaf(default):
+        return dict(node='leaf', req=False, vt='none', val='none', **{'def': ('plain', default)})
+
+    def ns(ports, req=False):
+        return dict(node='ns', req=req, vt='none', dyn=False, pop=True, val='none', ports=ports)
+    t1 = ns([('a', ns([('b', ns([('c', leaf(0))]))]))], req=True)
+    t2 = ns([('a', ns([('b', ns([('c', leaf(0)), ('d', ns([('e', leaf('s'))]))]))]))], req=True)
+    t3 = ns([('a', ns([('b', ns([('c', leaf(0))])), ('f', leaf(-1))]))], req=True)
+    inputs = [None, {}, {'a': {}}, {'a': {'b': {}}}, {'a': {'b': {'c': -1}}}, {'a': {'b': {'d': {}}}}, {'a': {'b': {'d': {'e': 0}}}},
+              {'a': {'f': 0, 'b': {}}}]
+    what = 'three trees with namespaces nested three deep and defaults at the bottom x nested inputs that supply the deep dictionaries partly'
+    return ports_model.explicit_family('deep_defaults', what, 'input', [(t1, inputs), (t2, inputs), (t3, inputs)])
+
+
 def run(pid, tier, seed):
     t0 = time.time()
     kind = KIND[pid]
     fams = ports_model.c11_families(tier) if kind == 'input' else ports_model.c12_families(tier)
+    if kind == 'input':
+        fams.append(deep_family())
     if tier == 'thorough':
         fams.append(hypothesis_family(kind, seed, 400, 40 if kind == 'input' else 30))
     # ---- (1) TLC: intended design (Dev = {}) and implementation as written (all deviation clauses), in parallel -------------
